@@ -81,7 +81,7 @@ def gen_project(rng: random.Random, idx: int) -> dict:
     def gen_rules(prefix_dir: str, sub: str, count: int) -> T.List[dict]:
         rules: T.List[dict] = []
         for ri in range(count):
-            kind = rng.choice(['data', 'data', 'headers', 'man', 'subdir', 'subdir', 'emptydir', 'symlink', 'configure'])
+            kind = rng.choice(['data', 'data', 'headers', 'man', 'subdir', 'subdir', 'emptydir', 'symlink', 'configure', 'linkdata'])
             tagp = f'{prefix_dir}r{ri}'
             if kind == 'data':
                 srcs = [new_file(f'{prefix_dir}data{ri}/{rng.choice(NAMES)}{j}.txt') for j in range(rng.randint(1, 2))]
@@ -92,6 +92,17 @@ def gen_project(rng: random.Random, idx: int) -> dict:
                                    for j in range(len(srcs))]
                 elif k < 0.5:
                     r['preserve_path'] = True
+            elif kind == 'linkdata':
+                # a symlink source installed as a link (follow_symlinks: false) next to the file it points to, or pointing
+                # at an absolute file outside DESTDIR; the link's target must never be touched
+                dd = dest_dir()
+                sib = new_file(f'{prefix_dir}ld{ri}/sib.txt', rng.choice([0o644, 0o600, 0o640]))
+                rules.append({'kind': 'data', 'srcs': [sib], 'install_dir': dd, 'mode': rng.choice([None, 'rw-r-----']),
+                              'tag': 'lnk', 'sub': sub})
+                lnk = f'{prefix_dir}ld{ri}/lnk'
+                links[lnk] = rng.choice(['sib.txt', '{R}/outside/secret'])
+                r = {'kind': 'data', 'srcs': [lnk], 'install_dir': dd, 'follow': False, 'link_target': links[lnk],
+                     'mode': rng.choice([None, 'rwxr-x---', 'rwxrwxrwx']), 'tag': 'lnk'}
             elif kind == 'headers':
                 srcs = [new_file(f'{prefix_dir}hdr{ri}/{rng.choice(["", "inner/"])}{rng.choice(NAMES)}{j}.h')
                         for j in range(rng.randint(1, 2))]
@@ -182,6 +193,8 @@ def render(rules: T.List[dict], opts: dict, base: str, A: str) -> str:
                 kw.append('rename: [' + ', '.join(mstr(x) for x in r['rename']) + ']')
             if r.get('preserve_path'):
                 kw.append('preserve_path: true')
+            if r.get('follow') is False:
+                kw.append('follow_symlinks: false')
             out.append(f"install_data({', '.join(mstr(rel(s)) for s in r['srcs'])}, {', '.join(kw)})" if kw else
                        f"install_data({', '.join(mstr(rel(s)) for s in r['srcs'])})")
         elif r['kind'] == 'headers':
@@ -242,7 +255,7 @@ def doc_tag(opts: dict, path: str) -> T.Optional[str]:
     return None
 
 
-def expected_entries(spec: dict, A: str) -> T.List[dict]:
+def expected_entries(spec: dict, A: str, Rroot: str = '') -> T.List[dict]:
     """every installed object the build definition asks for: {'path' (relative to prefix or absolute), 'type', ...,
     'tag', 'sub'}"""
     opts = spec['opts']
@@ -269,7 +282,10 @@ def expected_entries(spec: dict, A: str) -> T.List[dict]:
                     name = os.path.relpath(s, base) if base else s
                 else:
                     name = os.path.basename(s)
-                ents.append({'path': d + '/' + name, 'type': 'f', 'content': files[s][0], 'mode': fmode(r, s)})
+                if r.get('link_target'):
+                    ents.append({'path': d + '/' + name, 'type': 'l', 'target': r['link_target'].replace('{R}', Rroot)})
+                else:
+                    ents.append({'path': d + '/' + name, 'type': 'f', 'content': files[s][0], 'mode': fmode(r, s)})
             for e in ents:
                 e['tag'] = r['tag'] or doc_tag(opts, e['path'])
         elif r['kind'] == 'headers':
@@ -378,6 +394,14 @@ def build_project(spec: dict, R: str) -> T.Tuple[str, str, str]:
         with open(p, 'w', encoding='utf-8') as f:
             f.write(content)
         os.chmod(p, mode)
+    os.makedirs(os.path.join(R, 'outside'), exist_ok=True)
+    with open(os.path.join(R, 'outside', 'secret'), 'w') as f:
+        f.write('secret\n')
+    os.chmod(os.path.join(R, 'outside', 'secret'), 0o640)
+    for rel, tgt in spec.get('links', {}).items():
+        p = os.path.join(src, rel)
+        os.makedirs(os.path.dirname(p), exist_ok=True)
+        os.symlink(tgt.replace('{R}', R), p)
     main = f"project({mstr(spec['proj'])}, version: '1')\n" + render(spec['rules'], spec['opts'], '', A)
     if spec['sub_rules']:
         main += "subproject('sp')\n"
@@ -466,7 +490,8 @@ def work(arg: T.Tuple[dict, str, int, bool]) -> dict:
         bld, prefix, A = build_project(spec, R)
         res['prefix'] = prefix
         res['A'] = A
-        ents = expected_entries(spec, A)
+        ents = expected_entries(spec, A, R)
+        res['R'] = R
         res['glue'] = glue_requests(spec, R, bld, prefix, A)
         rng = random.Random(seed)
         for i, sel in enumerate(spec.get('selections') or selections(spec, ents, rng, deep)):
@@ -565,7 +590,7 @@ def judge_project(ctx, spec: dict, res: dict) -> None:
     if res.get('escaped'):
         ctx.violation(f'e2e-outside-destdir:{name}', f'installer wrote to {res["escaped"]}', case0)
     prefix, A = res['prefix'], res['A']
-    ents = expected_entries(spec, A)
+    ents = expected_entries(spec, A, res.get('R', ''))
     um = int(spec['umask'], 8)
 
     def full(p: str) -> str:
